@@ -111,14 +111,15 @@ theorem expandIri_bnode' (c : Ctx) (hc : c.terms = []) (vocab docRel : Bool) (l 
     expandIri c vocab docRel (cUnderscore :: cColon :: l) = .bnode l := expandIri_bnode c hc vocab docRel l
 
 /-- the `@id` of a well-formed subject / graph name / object node -/
-theorem evalId_flat (name : β → Str) (c : Ctx) (hc : c.terms = []) {t : Term β} (h : wfNode t = true) (n : Nat) :
+theorem evalId_flat (name : β → Str) (hne : ∀ b, name b ≠ []) (c : Ctx) (hc : c.terms = []) {t : Term β}
+    (h : wfNode t = true) (n : Nat) :
     evalId c (some (.str (flatId name t))) n = some (outTerm name t, n) := by
   cases t with
   | iri v =>
     simp only [wfNode] at h
     simp [evalId, flatId, expandIri_abs c hc false true h, nodeRef, h, outTerm, Term.map]
   | bnode b =>
-    simp [evalId, flatId, bnodeId, expandIri_bnode' c hc false true (name b), nodeRef, outTerm, Term.map]
+    simp [evalId, flatId, bnodeId, expandIri_bnode' c hc false true (name b), nodeRef, outTerm, Term.map, hne b]
   | lit l d g => simp [wfNode] at h
 
 theorem abs_ne_keyword {p k : Str} (h : absIri p = true) (hk : k.head? = some cAt) : p ≠ k := by
@@ -146,34 +147,34 @@ theorem classifyKey_graph (c : Ctx) : classifyKey c kGraph = .graph := by
   unfold classifyKey
   rw [if_neg (by decide), if_neg (by decide), if_neg (by decide), if_pos rfl]
 
-theorem nodeHead_flat (name : β → Str) (c : Ctx) (hc : c.terms = []) {t : Term β} (h : wfNode t = true)
+theorem nodeHead_flat (name : β → Str) (hne : ∀ b, name b ≠ []) (c : Ctx) (hc : c.terms = []) {t : Term β} (h : wfNode t = true)
     (k : Str) (hk : k ≠ kContext) (v : Json) (n : Nat) :
     nodeHead c false [(kId, .str (flatId name t)), (k, v)] n = some (c, outTerm name t, n, false) := by
   have h1 : getKey kContext [(kId, Json.str (flatId name t)), (k, v)] = none := by
     simp +decide [getKey, hk]
   have h2 : getKey kId [(kId, Json.str (flatId name t)), (k, v)] = some (.str (flatId name t)) := by
     simp [getKey]
-  simp [nodeHead, h1, h2, evalId_flat name c hc h n]
+  simp [nodeHead, h1, h2, evalId_flat name hne c hc h n]
 
-theorem nodeHead_flat1 (name : β → Str) (c : Ctx) (hc : c.terms = []) {t : Term β} (h : wfNode t = true) (n : Nat) :
+theorem nodeHead_flat1 (name : β → Str) (hne : ∀ b, name b ≠ []) (c : Ctx) (hc : c.terms = []) {t : Term β} (h : wfNode t = true) (n : Nat) :
     nodeHead c false [(kId, .str (flatId name t))] n = some (c, outTerm name t, n, false) := by
   have h1 : getKey kContext [(kId, Json.str (flatId name t))] = none := by simp +decide [getKey]
   have h2 : getKey kId [(kId, Json.str (flatId name t))] = some (.str (flatId name t)) := by simp [getKey]
-  simp [nodeHead, h1, h2, evalId_flat name c hc h n]
+  simp [nodeHead, h1, h2, evalId_flat name hne c hc h n]
 
-theorem evalItem_flatObj (name : β → Str) (c : Ctx) (hc : c.terms = []) (g : Option T) (s : T) (p : Str)
+theorem evalItem_flatObj (name : β → Str) (hne : ∀ b, name b ≠ []) (c : Ctx) (hc : c.terms = []) (g : Option T) (s : T) (p : Str)
     {o : Term β} (h : wfObj o = true) (n : Nat) :
     evalItem c TermDef.plain g s p (flatObj name o) n = some ([quad s p (outTerm name o) g], n) := by
   cases o with
   | iri v =>
     simp only [wfObj] at h
-    have hh := nodeHead_flat1 name c hc (t := Term.iri v) (by simpa [wfNode] using h) n
+    have hh := nodeHead_flat1 name hne c hc (t := Term.iri v) (by simpa [wfNode] using h) n
     simp only [flatId] at hh
     rw [flatObj, evalItem.eq_4 _ _ _ _ _ _ _ _ (by intro xs e; cases e)]
     rw [if_neg (by decide), if_neg (by decide), if_neg (by decide), hh]
     simp [evalMembers, classifyKey_id, andThen]
   | bnode b =>
-    have hh := nodeHead_flat1 name c hc (t := Term.bnode b) (by simp [wfNode]) n
+    have hh := nodeHead_flat1 name hne c hc (t := Term.bnode b) (by simp [wfNode]) n
     simp only [flatId] at hh
     rw [flatObj, evalItem.eq_4 _ _ _ _ _ _ _ _ (by intro xs e; cases e)]
     rw [if_neg (by decide), if_neg (by decide), if_neg (by decide), hh]
@@ -190,26 +191,26 @@ theorem evalItem_flatObj (name : β → Str) (c : Ctx) (hc : c.terms = []) (g : 
       rw [flatObj, evalItem.eq_5 _ _ _ _ _ _ _ (by intro k xs e; cases e) (by intro k x e; cases e)]
       simp +decide [hasKey, valueObjQuads, evalValueObj, getKey, hl, outTerm, Term.map]
 
-theorem evalMembers_flatNode (name : β → Str) (c : Ctx) (hc : c.terms = []) (g : Option T) {t : Triple β}
+theorem evalMembers_flatNode (name : β → Str) (hne : ∀ b, name b ≠ []) (c : Ctx) (hc : c.terms = []) (g : Option T) {t : Triple β}
     (hp : absIri t.p = true) (ho : wfObj t.o = true) (n : Nat) :
     evalMembers c g (outTerm name t.s) false [(kId, .str (flatId name t.s)), (t.p, .arr [flatObj name t.o])] n =
       some ([quad (outTerm name t.s) t.p (outTerm name t.o) g], n) := by
   have hplain : (TermDef.plain.cont = Container.list) = False := by simp [TermDef.plain]
   simp [evalMembers, classifyKey_id, classifyKey_abs c hc hp, andThen, evalItems, hplain,
-    evalItem_flatObj name c hc g (outTerm name t.s) t.p ho n]
+    evalItem_flatObj name hne c hc g (outTerm name t.s) t.p ho n]
 
-theorem evalNodes_flatNode (name : β → Str) (c : Ctx) (hc : c.terms = []) (g : Option T) {t : Triple β}
+theorem evalNodes_flatNode (name : β → Str) (hne : ∀ b, name b ≠ []) (c : Ctx) (hc : c.terms = []) (g : Option T) {t : Triple β}
     (hs : wfNode t.s = true) (hp : absIri t.p = true) (ho : wfObj t.o = true) (rest : List Json) (n : Nat) :
     evalNodes c g (flatNode name t :: rest) n =
       andThen (some ([quad (outTerm name t.s) t.p (outTerm name t.o) g], n)) (fun n1 => evalNodes c g rest n1) := by
   rw [flatNode, evalNodes,
-    nodeHead_flat name c hc hs t.p (abs_ne_keyword hp (by decide)) _ n]
-  simp only [evalMembers_flatNode name c hc g hp ho n]
+    nodeHead_flat name hne c hc hs t.p (abs_ne_keyword hp (by decide)) _ n]
+  simp only [evalMembers_flatNode name hne c hc g hp ho n]
 
 /-- the quad of the result for a quad of the dataset -/
 def outQuad (name : β → Str) (q : DQuad β) : Q := DQuad.map (fun b => BN.orig (name b)) q
 
-theorem evalNodes_flatEntry (name : β → Str) (c : Ctx) (hc : c.terms = []) {q : DQuad β} (h : wfQuad q = true)
+theorem evalNodes_flatEntry (name : β → Str) (hne : ∀ b, name b ≠ []) (c : Ctx) (hc : c.terms = []) {q : DQuad β} (h : wfQuad q = true)
     (rest : List Json) (n : Nat) :
     evalNodes c none (flatEntry name q :: rest) n =
       andThen (some ([outQuad name q], n)) (fun n1 => evalNodes c none rest n1) := by
@@ -219,18 +220,18 @@ theorem evalNodes_flatEntry (name : β → Str) (c : Ctx) (hc : c.terms = []) {q
   cases g with
   | none =>
     simp only [flatEntry]
-    rw [evalNodes_flatNode name c hc none hs hp ho rest n]
+    rw [evalNodes_flatNode name hne c hc none hs hp ho rest n]
     rfl
   | some gt =>
     simp only [flatEntry]
-    rw [evalNodes, nodeHead_flat name c hc hg kGraph (by decide) _ n]
-    have h1 := evalNodes_flatNode name c hc (some (outTerm name gt)) hs hp ho [] n
+    rw [evalNodes, nodeHead_flat name hne c hc hg kGraph (by decide) _ n]
+    have h1 := evalNodes_flatNode name hne c hc (some (outTerm name gt)) hs hp ho [] n
     simp only [evalNodes, andThen, List.append_nil] at h1
     have h1' : evalNodes c (some (Term.map (fun b => BN.orig (name b)) gt)) [flatNode name t] n =
         some ([quad (outTerm name t.s) t.p (outTerm name t.o) (some (outTerm name gt))], n) := h1
     simp [evalMembers, classifyKey_id, classifyKey_graph, andThen, h1', outQuad, DQuad.map, Triple.map, quad, outTerm]
 
-theorem evalNodes_flat (name : β → Str) (c : Ctx) (hc : c.terms = []) :
+theorem evalNodes_flat (name : β → Str) (hne : ∀ b, name b ≠ []) (c : Ctx) (hc : c.terms = []) :
     ∀ (d : List (DQuad β)) (n : Nat), WFDataset d →
       evalNodes c none (d.map (flatEntry name)) n = some (d.map (outQuad name), n) := by
   intro d
@@ -241,7 +242,7 @@ theorem evalNodes_flat (name : β → Str) (c : Ctx) (hc : c.terms = []) :
     have hq : wfQuad q = true := h q (by simp)
     have hd : WFDataset d := fun q' hq' => h q' (by simp [hq'])
     simp only [List.map_cons]
-    rw [evalNodes_flatEntry name c hc hq, andThen, ih n hd]
+    rw [evalNodes_flatEntry name hne c hc hq, andThen, ih n hd]
     simp
 
 /-! ### member names of the expanded forms are pairwise distinct -/
@@ -275,13 +276,13 @@ theorem writeFlat_wf (name : β → Str) : ∀ (d : List (DQuad β)), WFDataset 
     exact ⟨flatEntry_wf name (h q (by simp)), ih (fun q' hq' => h q' (by simp [hq']))⟩
 
 /-- The fallback document denotes the dataset itself, blank nodes relabelled by `name`. -/
-theorem writeFlat_denotes (name : β → Str) (mode11 : Bool) (base : Option Str) (d : List (DQuad β)) (h : WFDataset d) :
+theorem writeFlat_denotes (name : β → Str) (hne : ∀ b, name b ≠ []) (mode11 : Bool) (base : Option Str) (d : List (DQuad β)) (h : WFDataset d) :
     toRdf mode11 base (writeFlat name d) = some (d.map (outQuad name)) := by
   have hwf : (writeFlat name d).wf = true := by simpa [writeFlat, Json.wf] using writeFlat_wf name d h
   unfold toRdf
   rw [hwf]
   simp only [Bool.not_true, Bool.false_eq_true, if_false, writeFlat]
-  rw [evalNodes_flat name (Ctx.initial mode11 base) rfl d 0 h]
+  rw [evalNodes_flat name hne (Ctx.initial mode11 base) rfl d 0 h]
   rfl
 
 end RdfModel.Proofs.C10
